@@ -4,6 +4,7 @@
 pub fn dispatch(cmd: &str, args: &[String]) -> Option<i32> {
     match cmd {
         "provider" => Some(crate::provider::standalone(args)),
+        "c13-child" => Some(crate::c13::child_main(args)),
         "emit" => Some(crate::c17::emit_main(args)),
         "mark" => Some(crate::c11::mark_helper(args)),
         "fakeauth" => Some(crate::c20::fakeauth::standalone(args)),
